@@ -192,6 +192,22 @@ func excludeT(t *Table, pattern string) (err error) {
 			for _, fk := range c.ForeignKeys {
 				ef[fk] = struct{}{}
 			}
+			// Not every loader records the references from a column
+			// to the indexes and the foreign keys that are defined on it.
+			for _, idx := range t.Indexes {
+				for _, p := range idx.Parts {
+					if p.C == c {
+						ex[idx] = struct{}{}
+					}
+				}
+			}
+			for _, fk := range t.ForeignKeys {
+				for _, fc := range fk.Columns {
+					if fc == c {
+						ef[fk] = struct{}{}
+					}
+				}
+			}
 			return true, nil
 		})
 		// A malformed pattern is an error, and not an empty list.
